@@ -363,3 +363,14 @@ def _val_has_set(vj):
             return True
         return any(_val_has_set(x) for x in vj)
     return False
+
+
+def corpus_jobs(pid):
+    """Minimised past misses / adversarial cases of a property (corpus/<pid>/*.json): they run first."""
+    import glob
+    root = os.path.join(os.path.dirname(os.path.dirname(os.path.abspath(__file__))), "corpus", pid)
+    jobs = []
+    for f in sorted(glob.glob(os.path.join(root, "*.json"))):
+        d = json.load(open(f))
+        jobs.append({"prog": d["prog"], "ops": d["ops"], "corpus": os.path.basename(f)})
+    return jobs
